@@ -378,6 +378,9 @@ typedef struct {
   size_t                  tout_len;
   size_t                  tout_cap;
   int                     wr_event; /* a writability notification is due */
+  int                     ss_r;     /* interest last announced by sock_state_cb */
+  int                     ss_w;
+  int                     wr_short; /* the last asendto was short or returned EAGAIN */
 } vsock_t;
 
 typedef struct {
@@ -1517,6 +1520,7 @@ static ares_ssize_t v_sendto(ares_socket_t fd, const void *buffer,
   if (e) {
     if (e == EAGAIN || e == EWOULDBLOCK) {
       s->wr_event = 1;
+      s->wr_short = 1;
     }
     ev("SENDTO s%d len=%zu rc=-1 errno=%s%s", idx, length, errno_name(e), a);
     errno = e;
@@ -1533,12 +1537,14 @@ static ares_ssize_t v_sendto(ares_socket_t fd, const void *buffer,
   }
   ev("SENDTO s%d len=%zu rc=%zu%s", idx, length, n, a);
   if (s->type == SOCK_DGRAM) {
+    s->wr_short = 0;
     tx_record(s, idx, buffer, n);
     return (ares_ssize_t)n;
   }
   if (n < length) {
     s->wr_event = 1;
   }
+  s->wr_short = n < length;
   sb_init(&sb);
   sb_printf(&sb, "TCPBYTES s%d ", idx);
   sb_hex(&sb, buffer, n);
@@ -2098,6 +2104,8 @@ static void cb_sockstate(void *data, ares_socket_t fd, int readable,
     ev("SOCKSTATE fd?%d r=%d w=%d", (int)fd, readable, writable);
     return;
   }
+  G.socks[k].ss_r = readable;
+  G.socks[k].ss_w = writable;
   ev("SOCKSTATE s%ld r=%d w=%d%s", k, readable, writable,
      G.socks[k].closed ? " closed=1" : "");
 }
@@ -3077,6 +3085,49 @@ static int op_proc(int legacy, int only_if_events)
   return nrd + nwr;
 }
 
+/* like op_proc(0, 1), but a socket is reported writable only when the library has announced
+ * write interest for it (sock_state_cb if registered, otherwise ares_fds) and it can take
+ * data (no connect pending); level triggered, as a poll() based application would do */
+static int op_procw(void)
+{
+  int   *rd  = xmalloc(sizeof(int) * (G.nsocks + 1));
+  int   *wr  = xmalloc(sizeof(int) * (G.nsocks + 1));
+  int    nrd = 0, nwr = 0;
+  size_t i;
+  fd_set fr;
+  fd_set fw;
+  FD_ZERO(&fr);
+  FD_ZERO(&fw);
+  if (!G.sockstatecb) {
+    ares_fds(G.channel, &fr, &fw);
+  }
+  for (i = 0; i < G.nsocks; i++) {
+    vsock_t *s = &G.socks[i];
+    int      want_w;
+    if (s->closed) {
+      continue;
+    }
+    if (s->type == SOCK_DGRAM) {
+      if (s->inq_head < s->inq_n) {
+        rd[nrd++] = (int)i;
+      }
+    } else if (s->tin_off < s->tin_len || s->eof || s->reset) {
+      rd[nrd++] = (int)i;
+    }
+    want_w = G.sockstatecb ? s->ss_w : FD_ISSET(FD_BASE + (int)i, &fw);
+    if (want_w && !(s->type == SOCK_STREAM && s->connect_pending && !s->tfo)) {
+      s->wr_event = 0;
+      wr[nwr++]   = (int)i;
+    }
+  }
+  if (nrd + nwr > 0) {
+    do_process(rd, nrd, wr, nwr, 0);
+  }
+  free(rd);
+  free(wr);
+  return nrd + nwr;
+}
+
 static void wait_reinit(void)
 {
   /* ares_reinit() re-reads the system configuration on a helper thread; wait
@@ -3805,7 +3856,7 @@ static int needs_channel(const char *op)
 {
   static const char *ops[] = { "cancel",  "destroy",  "reinit",  "setservers",
                                "setsortlist", "tmo",   "proc",    "proct",
-                               "procfd",  "procsel",  "flushwrites", "fds", "run",
+                               "procfd",  "procsel",  "flushwrites", "fds", "run", "runw",
                                "getsock", "qlen",     "servers", "opts",
                                "setlocalip4", "setlocalip6", "setlocaldev",
                                "setserversl", "setserversp", "setserverscsv",
@@ -3823,7 +3874,7 @@ static int needs_channel(const char *op)
 static int forbidden_in_cb(const char *op)
 {
   static const char *ops[] = { "destroy", "proc",        "proct", "procfd",
-                               "procsel", "flushwrites", "oncb",  "reinit", "run",
+                               "procsel", "flushwrites", "oncb",  "reinit", "run", "runw",
                                NULL };
   int                i;
   for (i = 0; ops[i]; i++) {
@@ -4100,6 +4151,33 @@ static void exec_op(const char *optext, int in_cb)
       n++;
     }
     ev("RUN iterations=%ld%s", n, n == max ? " LIMIT" : "");
+  } else if (strcmp(op, "runw") == 0) {
+    long   max = 200;
+    long   n   = 0;
+    size_t i;
+    sb_t   sb;
+    int    first = 1;
+    if (argc > 2 || (argc == 2 && (!parse_long(argv[1], &max) || max < 0 ||
+                                   max > 100000))) {
+      ev("BADOP args: %s", optext);
+      goto done;
+    }
+    while (n < max && G.channel != NULL && op_procw() > 0) {
+      n++;
+    }
+    /* sockets whose last asendto was short / blocked and that were not flushed since
+     * (runw ends only when no watched socket is left, so these are not watched) */
+    sb_init(&sb);
+    sb_printf(&sb, "RUN iterations=%ld%s unwatched=[", n, n == max ? " LIMIT" : "");
+    for (i = 0; i < G.nsocks; i++) {
+      if (!G.socks[i].closed && G.socks[i].wr_short) {
+        sb_printf(&sb, "%ss%zu", first ? "" : ",", i);
+        first = 0;
+      }
+    }
+    sb_putc(&sb, ']');
+    ev_sb(&sb);
+    sb_free(&sb);
   } else if (strcmp(op, "proct") == 0) {
     do_process(NULL, 0, NULL, 0, 0);
   } else if (strcmp(op, "procfd") == 0) {
